@@ -19,6 +19,7 @@ def run(ck, fb):
     r15o(ck, fb)
     r15p(ck, fb)
     r15q(ck, fb)
+    r15r(ck, fb)
     ck.borrow('rules.c12', {'R12q': 'R15n'}, 'a deregistration answered ok must reach the node that holds the instance, or the nodes return different instance sets until - and after - the next reconciliation')
     ck.borrow('rules.c14', {'R14g': 'R15j'}, 'a refused cluster message is a lost registry / view change: the nodes cannot converge on it')
 
@@ -640,3 +641,32 @@ def r15q(ck, fb, R='R15q'):
                'the future that sends a sync request to the peer (and retries it) is returned as an ordinary actor future: requests to one peer overtake each '
                'other - a retransmitted registration arrives after the removal that followed it (peer fails its first request after 600 ms: owner returns '
                '[], peer returns [10.0.0.9:8080] for ever)', 'registered with ctx.wait')
+
+
+def r15r(ck, fb, R='R15r'):
+    ck.rule(R, 'the anti-entropy round compares SETS: every 12 s a node reports, per gRPC connection it holds, the keys it registered; the receiver '
+               '(NamingActor::diff_grpc_distro_client_data) removes what it holds beyond the report and asks for what it lacks. For a client it knows, '
+               'an iteration of the loop over the reported clients cannot come back to the loop head without having passed both set differences (or an '
+               'equality test of the two sets): a shortcut on the sizes skips a client that deregistered k instances and registered k others - when the '
+               'incremental sync of that change was lost, this round is the only repair left, and the nodes differ for ever')
+    b = ck.body('rnacos::naming::core::NamingActor::diff_grpc_distro_client_data', R)
+    if not b:
+        return
+    diffs = b.calls(r'HashSet::<T, S>::difference$|HashSet::<T, S, A>::difference$|BTreeSet::<T, A>::difference$|HashSet::<T, S>::symmetric_difference$')
+    ck.floor(R, 'set differences in diff_grpc_distro_client_data', len(diffs), 2)
+    look = util.mut_calls_on_field(b, 'client_instance_set', r'HashMap::<K, V, S, A>::(get|get_mut)$')
+    some = util.option_edges(b, look, 'Some')
+    if not ck.require(bool(some), R, 'diff:anchor-known-client', b.where(), 'the lookup of the reported client in client_instance_set was not found'):
+        return
+    eqs = set()
+    via = {s0.bb for s0 in diffs} | eqs
+    # from the Some edge, can the iteration return to the loop head (the `next` call of the outer loop) without passing a difference?
+    heads = {s0.bb for s0 in b.calls(r'Iterator>::next$|Iterator::next$')}
+    leak = []
+    for (s0, d0, lab0) in some:
+        free = cfg.reach_from(b, [d0], blocked_blocks=via)
+        leak += [x for x in heads if x in free and cfg.dominates_blocks(b, {x}, s0)]
+    ck.require(not leak, R, 'diff:known-client-is-always-compared', b.where(leak[0]) if leak else b.where(),
+               'for a client this node knows, the reconciliation can go on to the next client without having compared the two key sets (a path from the '
+               'lookup back to the loop head passes no set difference): a client whose key count is unchanged but whose keys differ is never repaired',
+               'both differences on every iteration')
